@@ -67,11 +67,18 @@ def run_shard(case_idxs, tier, sub_seed):
                 continue
             res.count("crash_points_enumerated", len(sites))
             recov = ["X", "Z"] if case.call["op"] in ("store", "tag", "delete") and case.call.get("pid") else ["X"]
-            for site in sites + [len(case.ops)]:
+            # a process can also die INSIDE a descriptor-level write (os.write, os.sendfile): half of it is on disk
+            mids = [("mid", i) for i in sites if case.ops[i].partial is not None]
+            for site in sites + [len(case.ops)] + mids:
+                mid = isinstance(site, tuple)
+                if mid:
+                    site = site[1]
                 for rc in recov:
-                    code = F.run_crash(case, site)
+                    code = F.run_crash(case, site, mid=mid)
                     if code == 77:
                         res.count("crash_points_hit")
+                    elif code == 79 and mid:
+                        res.count("crash_points_inside_a_descriptor_write")
                     elif code == 0 and site == len(case.ops):
                         res.count("completed_runs")
                     else:
@@ -81,15 +88,15 @@ def run_shard(case_idxs, tier, sub_seed):
                     probs, label = F.judge_crash(case, rc)
                     states.add(label)
                     res.evaluations += 1
-                    res.distinct.add(repr((ci, variant, site, rc)))
+                    res.distinct.add(repr((ci, variant, site, rc, mid)))
                     op = case.ops[site] if site < len(case.ops) else None
                     for symptom, detail in probs:
                         sig = {"symptom": symptom, "call": op_shape(case.call), "case": case.label,
-                               "crash_before": site_class(case, op) if op else "after-call", "interrupted_pid_state": label}
+                               "crash_before": (("inside:" if mid else "") + site_class(case, op)) if op else "after-call", "interrupted_pid_state": label}
                         if symptom.startswith("bystander-changed"):
                             sig["changed_fields"] = changed_fields(detail)
                         wit = {"engine": "crash", "case_index": ci, "variant": variant, "case": case.label, "start": case.start_name,
-                               "call": case.call, "site": site, "crash_before": op.describe(case.rundir) if op else "after-call",
+                               "call": case.call, "site": site, "mid": mid, "crash_before": op.describe(case.rundir) if op else "after-call",
                                "recovery_content": rc, "detail": jsonable(detail)}
                         if symptom in SYMPTOMS:
                             res.violation(sig, wit)
@@ -125,7 +132,7 @@ def replay(witness):
         for i, op in enumerate(case.ops):
             mark = " <== process dies before this operation" if i == witness["site"] else ""
             print(f"   {i:3d} {op.describe(case.rundir)}{mark}")
-        code = F.run_crash(case, witness["site"])
+        code = F.run_crash(case, witness["site"], mid=witness.get("mid", False))
         print("child exit status:", code)
         print("directory left behind:", case.abstract(case.rundir).describe())
         probs, label = F.judge_crash(case, witness["recovery_content"])
